@@ -28,16 +28,19 @@ Definition jpar (x : option (Z * Z)) : jv := jopt (fun ps => JL [JZ (fst ps); JZ
 
 Definition mk_table (l : list (Z * Z * Z)) : table :=
   map (fun x => {| kp_pid := fst (fst x); kp_ppid := snd (fst x); kp_start := snd x |}) l.
-Definition mk_fixes (a b c d e : bool) : fixes :=
-  {| fx_skip_self := a; fx_parents_seen := b; fx_parent_reuse := c; fx_parents_nsp := d; fx_mono := e |}.
+Definition mk_fixes (a b c d e f : bool) : fixes :=
+  {| fx_skip_self := a; fx_parents_seen := b; fx_parent_reuse := c; fx_parents_nsp := d; fx_mono := e; fx_ident_some := f |}.
 
 (* the caller after a clock history: btime (seconds) at the start, BOOT_TIME cache empty,
    then clock steps / psutil.boot_time() calls / create_time() calls on the caller *)
 Definition CLK : Z := 100.
 Inductive hev := HSet (b : Z) | HBoot | HCt.
-Definition mk_obj (pid ident b0 : Z) (h : list hev) : pobj :=
-  clock_obj pid ident {| k_btime := b0 * CLK; k_cache := None |}
-    (map (fun e => match e with HSet b => SetBtime (b * CLK) | HBoot => CallBootTime | HCt => CallCreateTime end) h).
+(* [known] = false: the identity could not be read when the object was created (_ident[1] is None) *)
+Definition with_known (known : bool) (o : pobj) : pobj :=
+  {| o_pid := o_pid o; o_ident := o_ident o; o_ctime := o_ctime o; o_known := known |}.
+Definition mk_obj (known : bool) (pid ident b0 : Z) (h : list hev) : pobj :=
+  with_known known (clock_obj pid ident {| k_btime := b0 * CLK; k_cache := None |}
+    (map (fun e => match e with HSet b => SetBtime (b * CLK) | HBoot => CallBootTime | HCt => CallCreateTime end) h)).
 
 (* spec answer by caller state (whatever the create_time() cache holds): alive -> demanded value, recycled -> NoSuchProcess,
    gone (PID absent) -> nothing demanded beyond "a value or NoSuchProcess(caller)" *)
